@@ -209,8 +209,98 @@ def mesh_case(c):
   return safe(go)
 
 
+def nnx_stateaxes(c):
+  """a module with an annotated Param and a BatchStat, created under nnx.vmap(out_axes=StateAxes) and used under nnx.vmap / nnx.scan
+  (in_axes=StateAxes) with the filters of the StateAxes in any order: the partition name sits at the stacking axis of the stacked
+  Variable only, is gone inside the transform and back afterwards. c: order ('int_first'|'int_last'|'int_middle'), k (axis of the
+  Param), other (None|'carry'), annotate_stat, form ('vmap'|'scan'), n"""
+  k, n, pname = c['k'], c['n'], 'L'
+  snames = lambda v: (list(v.get_metadata()['sharding']) if v.get_metadata().get('sharding') is not None else None)
+  base = ('din', 'dout')
+
+  class Block(nnx.Module):
+    def __init__(self):
+      self.w = nnx.Param(jnp.ones((2, 3)), sharding=base)
+      self.s = nnx.BatchStat(jnp.zeros((3,)), sharding=('dout',)) if c['annotate_stat'] else nnx.BatchStat(jnp.zeros((3,)))
+      self.t = nnx.Intermediate(jnp.zeros(()))
+
+  def axes_for(other):
+    items = {'int_first': [(nnx.Param, k), (nnx.BatchStat, other), (nnx.Intermediate, other)],
+             'int_last': [(nnx.BatchStat, other), (nnx.Intermediate, other), (nnx.Param, k)],
+             'int_middle': [(nnx.BatchStat, other), (nnx.Param, k), (nnx.Intermediate, other)]}[c['order']]
+    return nnx.StateAxes(dict(items))
+  out = {}
+
+  @nnx.vmap(in_axes=None, out_axes=axes_for(None), axis_size=n, transform_metadata={nnx.PARTITION_NAME: pname})
+  def create(_):
+    return Block()
+  m = create(None)
+  out['created'] = {'w_shape': list(m.w.value.shape), 'w_names': list(m.w.sharding), 's_shape': list(m.s.value.shape),
+                    's_names': snames(m.s)}
+  seen = {}
+  if c['form'] == 'vmap':
+    def use(mm, x):
+      seen['w'] = (list(mm.w.value.shape), list(mm.w.sharding))
+      seen['s'] = (list(mm.s.value.shape), snames(mm.s))
+      return mm.w.value.sum() + x
+    y = nnx.vmap(use, in_axes=(axes_for(None), 0), out_axes=0, transform_metadata={nnx.PARTITION_NAME: pname})(m, jnp.zeros((n,)))
+  else:
+    other = nnx.Carry if c['other'] == 'carry' else None
+
+    def body(mm, x):
+      seen['w'] = (list(mm.w.value.shape), list(mm.w.sharding))
+      seen['s'] = (list(mm.s.value.shape), snames(mm.s))
+      return x
+    if other is nnx.Carry:
+      # the Variables under the Carry filter travel with the module, the second argument is the explicit carry
+      f = nnx.scan(body, in_axes=(axes_for(other), nnx.Carry), out_axes=nnx.Carry, length=n, transform_metadata={nnx.PARTITION_NAME: pname})
+      f(m, jnp.zeros(()))
+    else:
+      f = nnx.scan(body, in_axes=(axes_for(other), 0), out_axes=0, transform_metadata={nnx.PARTITION_NAME: pname})
+      f(m, jnp.zeros((n,)))
+  out['inside'] = seen
+  out['after'] = {'w_shape': list(m.w.value.shape), 'w_names': list(m.w.sharding), 's_names': snames(m.s)}
+  out['spec'] = list(nspmd.get_partition_spec(nnx.State({'w': m.w.to_state()}))['w'].value)
+  return out
+
+
+def linen_metadata_axis(c):
+  """nn.add_metadata_axis against nn.vmap with the same variable_axes and metadata_params, two collections with their own axes"""
+  import functools
+  variable_axes = {'params': c['p_axis'], 'stats': c['s_axis']}
+  metap = {nn.PARTITION_NAME: 'stack'}
+
+  class Inner(nn.Module):
+    @nn.compact
+    def __call__(self, x):
+      kernel = self.param('kernel', nn.with_partitioning(nn.initializers.ones_init(), ('in', 'out')), (2, 4))
+      mean = self.variable('stats', 'mean', nn.with_partitioning(lambda: jnp.zeros((4,)), ('feat',)))
+      return x @ kernel + mean.value
+
+  def names_tree(v):
+    return {'kernel': list(v['params']['inner']['kernel'].names), 'mean': list(v['stats']['inner']['mean'].names)}
+
+  class Stacked(nn.Module):
+    @nn.compact
+    def __call__(self, x):
+      return nn.vmap(Inner, variable_axes=variable_axes, split_rngs={'params': True}, in_axes=0, out_axes=0, metadata_params=metap)(name='inner')(x)
+
+  class MetaOnly(nn.Module):
+    @functools.partial(nn.add_metadata_axis, variable_axes=variable_axes, metadata_params=metap)
+    @nn.compact
+    def __call__(self, x):
+      return Inner(name='inner')(x)
+  vs = Stacked().init(jax.random.key(0), jnp.ones((3, 5, 2)))
+  vs2 = MetaOnly().init(jax.random.key(0), jnp.ones((5, 2)))
+  return {'vmap': names_tree(vs), 'meta_only': names_tree(vs2), 'vmap_shapes': {'kernel': list(vs['params']['inner']['kernel'].value.shape), 'mean': list(vs['stats']['inner']['mean'].value.shape)},
+          'spec': {kk: list(vv) for kk, vv in names_tree(jax.tree_util.tree_map(lambda x: x, vs2)).items()}}
+
+
 def main(payload):
   res = {}
+  for key, fn in (('stateaxes', nnx_stateaxes), ('metaaxis', linen_metadata_axis)):
+    if key in payload:
+      res[key] = [safe(lambda c=c: fn(c)) for c in payload[key]]
   for key, fn in (('direct', direct), ('linen', linen_transform), ('nnx', nnx_transform), ('boxed', boxed_like_raw), ('mesh', mesh_case)):
     if key in payload:
       res[key] = []
